@@ -120,7 +120,7 @@ KEYWORDS = [b"[Version]", b"[Number of Ports]", b"[Two-Port Data Order]",
 NUMBERS = [b"0", b"-1", b"1", b"1e308", b"1e309", b"-1e309", b"nan", b"inf",
            b"-inf", b"0x1p+0", b"1e-320", b"99999999999999999999", b"2147483648",
            b"-2147483649", b"1.5.2", b"1e", b"+", b"-", b".", b"1e+", b"0x",
-           b"1,5", b"4294967296", b"65536", b"1000000"]
+           b"1,5", b"4294967296", b"65536"]
 
 _tok = re.compile(rb"\S+|\s+")
 _num = re.compile(rb"^[+-]?(\d+\.?\d*|\.\d+)([eE][+-]?\d+)?j?$")
